@@ -25,6 +25,8 @@ pub mod qsroots;
 pub use qsroots::*;
 pub mod expwin;
 pub use expwin::*;
+pub mod lucas;
+pub use lucas::*;
 pub mod chains;
 pub use chains::*;
 pub mod group;
